@@ -1,6 +1,7 @@
 import TinysetModel.Proofs.PropsAux
 import TinysetModel.Proofs.InlineSpec
 import TinysetModel.Proofs.Demo
+import TinysetModel.Proofs.AllocProgram
 /-! C07 — clone() is a deep, independent copy (sets and consuming iterators).
 
 In the Rust code `Clone` copies the inline word, or copies header + bucket array byte for byte into a fresh
@@ -13,7 +14,10 @@ subjected to any history answers exactly like an ideal set that starts with the 
 The precondition under which the real `Clone` (which decides "inline or pointer?" from the low bits of the
 word) matches `clone r = r` is tag coherence: `tag_coherent_u64/u32` below (= C06) — the mask used by `clone`
 and `with_capacity_of` is among `Gen.tagMasks64/32`.  That the copy is deep at the byte level (fresh block, no
-aliasing, independent drops) is checked by the harness under the instrumented allocator. -/
+aliasing, independent drops) is checked by the harness under the instrumented allocator; what the model adds
+(`Model/Alloc.lean`, section "allocator calls" below) is that `clone` and `with_capacity_of` of a set that owns
+a block REQUEST a block of their own with the same size, an inline or empty set requests nothing, and that in
+any program the two can be mutated, drained and dropped in either order with every release legal. -/
 namespace C07
 open SC TinyC
 
@@ -106,6 +110,26 @@ example : [.bool true, .bool true, .bool true, .nat 2] = (specRun (elems cfg64 D
 /-- the original still has the member that was removed from the clone -/
 example : contains cfg64 Demo.bitmap64 1000 = true := by decide +kernel
 example : WF cfg32 (withCapOf Demo.plain32) := (with_capacity_of_u32 Demo.plain32_wf).1
+
+/-! ### allocator calls of `clone` / `with_capacity_of` (compared call by call with the real allocator's record) -/
+
+/-- the clone of a set that owns a block obtains a block of its own, of the same size, from the allocator — by the
+allocator's contract a block distinct from every live one, the original's included -/
+theorem clone_obtains_its_own_block (c : Cfg) (sz cap bits : Nat) (a : RH.Tbl) :
+    cloneE c (.heap sz cap bits a) = (.heap sz cap bits a, [.alloc (bytesFor c cap)]) := rfl
+theorem with_capacity_of_obtains_its_own_block (c : Cfg) (sz cap bits : Nat) (a : RH.Tbl) :
+    (withCapOfE c (.heap sz cap bits a)).2 = [.alloc (bytesFor c cap)] := rfl
+/-- an inline or empty set is copied as a word: no request -/
+theorem inline_clone_requests_nothing (c : Cfg) (t : T) :
+    (cloneE c (.stack t)).2 = [] ∧ (cloneE c .empty).2 = [] ∧ (withCapOfE c (.stack t)).2 = [] ∧ (withCapOfE c .empty).2 = [] :=
+  ⟨rfl, rfl, rfl, rfl⟩
+/-- original and clone in one program: whatever is done to either afterwards (any operations, either dropped
+first), every allocator call is legal and nothing stays live at the end -/
+theorem clone_then_anything {D : Type} (c : Cfg) (fresh : Bool) (g : Rng D) (fuel n : Nat) (before after : List POp) (i j : Nat)
+    {s' : Slots} {d d' : D} {evs : List Ev}
+    (h : prun c fresh g fuel (List.replicate n .empty) (before ++ [.clone i j] ++ after) d = .ok ((s', evs), d')) :
+    runEv [] (evs ++ dropAll c s') = some [] :=
+  program_balanced fresh g fuel n _ h
 
 end C07
 
